@@ -5,7 +5,7 @@ import random
 from fractions import Fraction as F
 
 from ..cases import Case, run_cases, Q, U, V, M, OP
-from ..ctl import num, val, is_exc, EXACT_TYPES
+from ..ctl import num, val, is_exc, dec_str, EXACT_TYPES
 from ..gen import rand_fraction, enc_amount
 from ..models import iso4217
 from ..models import rounding as RM
@@ -36,7 +36,8 @@ def run(chk, R, tier, seed):
     chk.require("iso entries checked", len(table))
     for m in (0, 2, 3, 4):
         chk.require("minor units %d" % m)
-    for op in MIX_ERR + ["==", "!=", "*", "convert"]:
+    for op in MIX_ERR + ["==", "!=", "*", "convert", "parse-money",
+                         "parse-generic"]:
         chk.require("mixed|" + op)
     chk.require("unknown codes rejected")
     chk.require("user currencies")
@@ -113,6 +114,12 @@ def run(chk, R, tier, seed):
     def mixed(a, b, op, xa, xb):
         if op == "convert":
             e = M(Q(num(xa), a), "convert", U(b))
+        elif op in ("parse-money", "parse-generic"):
+            # a string naming one currency with another one given as unit is
+            # a conversion, too
+            e = ["c", ["g", "quantity.money:Money" if op == "parse-money"
+                       else "quantity:Quantity"],
+                 [["s", "%s %s" % (dec_str(xa), a)], U(b)]]
         else:
             e = OP(op, Q(num(xa), a), Q(num(xb), b))
         steps = [{"k": "r", "e": e}]
@@ -124,7 +131,7 @@ def run(chk, R, tier, seed):
                 return
             chk.case(("mixed", a, b, op, str(xa), str(xb)))
             chk.count("mixed|" + op)
-            if op in MIX_ERR or op == "convert":
+            if op in MIX_ERR or op == "convert" or op.startswith("parse-"):
                 ok = is_exc(r, "UnitConversionError")
                 want = "UnitConversionError"
             elif op == "==":
@@ -150,13 +157,15 @@ def run(chk, R, tier, seed):
             xa, xb = rng.choice(amts), rng.choice(amts)
             ops = ["+", "convert"]
             if tier == "thorough":
-                ops = MIX_ERR + ["convert", "==", "!=", "*"]
+                ops = MIX_ERR + ["convert", "==", "!=", "*", "parse-money",
+                                 "parse-generic"]
             for op in ops:
                 cases.append(mixed(a, b, op, xa, xb))
     chk.exhaustive["ordered pairs of distinct currencies x {+, convert}"] = True
     for _ in range(2500 if tier == "quick" else 0):
         a, b = rng.sample(codes, 2)
-        for op in rng.sample(MIX_ERR[1:] + ["==", "!=", "*"], 3):
+        for op in rng.sample(MIX_ERR[1:] + ["==", "!=", "*", "parse-money",
+                                            "parse-generic"], 3):
             cases.append(mixed(a, b, op, rng.choice(amts), rng.choice(amts)))
 
     # ---- same currency
